@@ -20,7 +20,8 @@ def build(targets, timeout=3600):
     os.makedirs(BUILD, exist_ok=True)
     with open(os.path.join(BUILD, '.lock'), 'w') as lk:
         fcntl.flock(lk, fcntl.LOCK_EX)
-        p = subprocess.run(['make', '-C', VERIF, '-j%d' % CORES, '-k'] + targets, stdout=subprocess.PIPE,
+        extra = ['REPO=' + os.environ['VERIF_REPO']] if os.environ.get('VERIF_REPO') else []  # background sweeps on a snapshot of /repo
+        p = subprocess.run(['make', '-C', VERIF, '-j%d' % CORES, '-k'] + extra + targets, stdout=subprocess.PIPE,
                            stderr=subprocess.STDOUT, text=True, timeout=timeout)
         fcntl.flock(lk, fcntl.LOCK_UN)
     if p.returncode == 0:
